@@ -1,11 +1,42 @@
 (** C12 - A leased output stays out of reach until released or expired.
-    Property theorems only. *)
+    Property theorems only.
+
+    Two kinds of theorem, and what ties each to the code:
+
+    (A) PER-OPERATION facts about the transcribed functions [lock_output],
+        [unlock_output], [is_locked], [unspent_outputs] of the model
+        (Store.v), valid in every store state, reachable or not:
+        [C12_excluded_from_spendable], [C12_other_id_cannot_lease],
+        [C12_other_id_cannot_release], [C12_same_id_extends],
+        [C12_owner_release_frees], [C12_expires_exactly_at_expiry],
+        [C12_unknown_output_rejected].  They unfold the definitions; they are
+        tied to wtxmgr only by the correspondence (every LockOutput /
+        UnlockOutput / ListLockedOutputs / Balance / UnspentOutputs result of
+        the real store is compared with these functions on the same history)
+        and say nothing about which states occur.
+
+    (B) HISTORY-LEVEL facts, about every state reached by a prefix of a
+        chain-consistent history, relating the store to the LEDGER (facts):
+        [C12_leases_follow_ledger], [C12_excluded_from_balance] (under the
+        refinement invariant), and the corollaries that instantiate (A) at
+        reachable states through the refinement: [C12_hist_other_id_cannot_lease],
+        [C12_hist_other_id_cannot_release], [C12_hist_leasable_by_anyone_iff_expired],
+        [C12_hist_available_iff_expired].  Their premise is what the ledger
+        says ("the output is leased to A until e"), their conclusion what the
+        store does.  [C12_confirmed_spend_removes_lease] is a fact about the
+        ledger step; it reaches the store through [C12_leases_follow_ledger].
+
+    The expiry returned by a successful lease: the model returns the instant
+    asked for ([now + dur]); the stored lease is truncated to whole seconds.
+    No clause of the property depends on which of the two an implementation
+    returns (both denote the granted lease), so the correspondence accepts
+    either (StoreCorr code 25). *)
 From stdpp Require Import gmap list numbers sorting.
 From Coq Require Import ZArith NArith.
 From Verif Require Import Tx.Store Tx.Ledger Tx.Hist Tx.Inv Tx.Refine Tx.LeaseLemmas Tx.InvObs Tx.InvLease Tx.RefineAll Tx.Corollaries.
 Local Open Scope Z_scope.
 
-(** Per-operation clauses, valid in EVERY store state (hence in every state
+(** (A) Per-operation clauses, valid in EVERY store state (hence in every state
     reached by any interleaving of lease, release, clock, sweep, receipt,
     spend, confirmation and reorg events), for every pair of identifiers and
     every instant. *)
@@ -53,7 +84,7 @@ Theorem C12_unknown_output_rejected : ∀ id op dur now s,
 Proof. exact LeaseLemmas.lease_unknown_output_rejected. Qed.
 Print Assumptions C12_unknown_output_rejected.
 
-(** History-level clauses: after every prefix of every chain-consistent
+(** (B) History-level clauses: after every prefix of every chain-consistent
     history (any interleaving of lease, release, clock, sweep, receipt, spend,
     confirmation and reorg events) the lease bucket equals the ledger's leases,
     "known output" means credited output of a known transaction that no
@@ -89,6 +120,84 @@ Proof.
 Qed.
 Print Assumptions C12_confirmed_spend_removes_lease.
 
-(** Leases survive restart: the lease bucket is part of the database state
-    (the model's [store] has no in-memory part), exercised by the harness with
-    a close-and-reopen of the file. *)
+(** (B) continued: the per-operation clauses at reachable states.  [p] is any
+    prefix of any chain-consistent history [h]; [run U p] is the store state
+    and clock the history reached, [spec_run U p] the ledger.  If the ledger
+    holds [op] leased to [l_id l] until [l_expiry l] and that instant has not
+    been reached, a lease request under another identifier changes neither the
+    store nor the ledger and fails (with "already locked" when the output is
+    known) ... *)
+Theorem C12_hist_other_id_cannot_lease : ∀ (U : universe) (h p : list event) id' op dur l,
+  wf_universe U = true → chain_consistent U h = true → p `prefix_of` h →
+  f_leases (fs (spec_run U p)) !! op = Some l → sclock (spec_run U p) < l_expiry l → l_id l ≠ id' →
+  (step U (run U p) (Lease id' op dur)).1 = run U p ∧
+  spec_step U (spec_run U p) (Lease id' op dur) = spec_run U p ∧
+  ((step U (run U p) (Lease id' op dur)).2 = OLock ErrAlreadyLocked ∨
+   (step U (run U p) (Lease id' op dur)).2 = OLock ErrUnknownOutput) ∧
+  (known_output U (fs (spec_run U p)) op = true →
+   (step U (run U p) (Lease id' op dur)).2 = OLock ErrAlreadyLocked).
+Proof.
+  intros U h p id' op dur l Hwf Hc Hp. destruct (refinement_prefix U h p Hwf Hc Hp) as [HI Hclk].
+  by apply reach_other_id_cannot_lease.
+Qed.
+Print Assumptions C12_hist_other_id_cannot_lease.
+
+(** ... and so does a release under another identifier. *)
+Theorem C12_hist_other_id_cannot_release : ∀ (U : universe) (h p : list event) id' op l,
+  wf_universe U = true → chain_consistent U h = true → p `prefix_of` h →
+  f_leases (fs (spec_run U p)) !! op = Some l → sclock (spec_run U p) < l_expiry l → l_id l ≠ id' →
+  (step U (run U p) (Release id' op)).1 = run U p ∧
+  spec_step U (spec_run U p) (Release id' op) = spec_run U p ∧
+  (step U (run U p) (Release id' op)).2 ≠ OLock UnlockOk ∧
+  (known_output U (fs (spec_run U p)) op = true →
+   (step U (run U p) (Release id' op)).2 = OLock ErrUnlockNotAllowed).
+Proof.
+  intros U h p id' op l Hwf Hc Hp. destruct (refinement_prefix U h p Hwf Hc Hp) as [HI Hclk].
+  by apply reach_other_id_cannot_release.
+Qed.
+Print Assumptions C12_hist_other_id_cannot_release.
+
+(** The output becomes leasable by anyone EXACTLY at the expiry instant: for a
+    known output the ledger holds leased to another identifier, the request is
+    granted if and only if the expiry has been reached. *)
+Theorem C12_hist_leasable_by_anyone_iff_expired : ∀ (U : universe) (h p : list event) id' op dur l,
+  wf_universe U = true → chain_consistent U h = true → p `prefix_of` h →
+  f_leases (fs (spec_run U p)) !! op = Some l → l_id l ≠ id' →
+  known_output U (fs (spec_run U p)) op = true →
+  ((step U (run U p) (Lease id' op dur)).2 = OLock (LockOk (clock (run U p) + dur)) ↔
+   l_expiry l <= sclock (spec_run U p)).
+Proof.
+  intros U h p id' op dur l Hwf Hc Hp. destruct (refinement_prefix U h p Hwf Hc Hp) as [HI Hclk].
+  by apply reach_leasable_by_anyone_iff_expired.
+Qed.
+Print Assumptions C12_hist_leasable_by_anyone_iff_expired.
+
+(** ... and it is back in the spendable set exactly from that instant on
+    (provided it would be there when leases are ignored). *)
+Theorem C12_hist_available_iff_expired : ∀ (U : universe) (h p : list event) op l u,
+  wf_universe U = true → chain_consistent U h = true → p `prefix_of` h →
+  f_leases (fs (spec_run U p)) !! op = Some l → u_op u = op →
+  (u ∈ unspent_outputs U (st (run U p)) (clock (run U p)) ↔
+   l_expiry l <= sclock (spec_run U p) ∧
+   u ∈ fetch_credits U (st (run U p)) (clock (run U p)) true false).
+Proof.
+  intros U h p op l u Hwf Hc Hp. destruct (refinement_prefix U h p Hwf Hc Hp) as [HI Hclk].
+  by apply reach_available_iff_expired.
+Qed.
+Print Assumptions C12_hist_available_iff_expired.
+
+(** "Leases survive restart".  The transaction store keeps no lease state in
+    memory: the lease bucket is part of the database, and the model's [store]
+    is exactly the database state.  For such a store the clause means: closing
+    and reopening is the IDENTITY step - after it every query answers what the
+    model and the ledger predict from the unchanged state.  The harness has the
+    event "restart" (close and reopen the database file; in the wallet-level
+    cases stop the wallet, close, reopen, start), rendered for the model as
+    [Tick 0], whose model and ledger steps are the identity (below), and
+    compares the lease list, balances and spendable set after the restart with
+    both.  That the real store has no in-memory lease state is NOT proved (it
+    is what the restart event tests): partial. *)
+Theorem C12_restart_step_is_identity_partial : ∀ (U : universe) (m : mstate) (sm : sstate),
+  step U m (Tick 0) = (m, ONone) ∧ spec_step U sm (Tick 0) = sm.
+Proof. exact restart_step_is_identity. Qed.
+Print Assumptions C12_restart_step_is_identity_partial.
